@@ -125,6 +125,31 @@ Theorem C07_accept_drop_sound : forall m script n oi ok,
      (exists r, ok ++ r = spec_requests m script)).
 Proof. exact accept_drop_thm. Qed.
 
+(* ... and complete for every "lazy consumer" schedule: the caller has just been handed an
+   item (or has not polled at all), the worker runs for any while, the caller drops the
+   stream, anything may follow -- whatever the worker still does is accepted *)
+Theorem C07_accept_drop_complete : forall m script s0 lsa sa sb lp s1 ls2 s2,
+  pager_init m script = Some s0 ->
+  run s0 lsa = Some sa ->
+  (sb = sa /\ lsa = [] \/
+   step sa LCons = Some sb /\ List.length (s_out sb) = S (List.length (s_out sa))) ->
+  s_cons sb = CActive ->
+  Forall (eq LProd) lp -> run sb lp = Some s1 ->
+  run s1 (LDrop :: ls2) = Some s2 ->
+  accept_drop m script (List.length (s_out s2)) (s_out s2) (map req_key (s_reqs s2)) = true.
+Proof. exact accept_drop_complete. Qed.
+
+(* what the code does when the retry policy answers IgnoreWriteError to a failed page fetch
+   (pages < k read, page k ignored): it stops fetching and the stream ends WITHOUT an error.
+   Recorded as observation O1 in docs/C07.md: this is the one kind of non-retried failure that
+   does not surface. *)
+Theorem C07_ignored_write_error_ends_silently : forall m script k,
+  ignore_point m script = Some k ->
+  exists s0, pager_init m script = Some s0 /\
+  forall ls s, run s0 ls = Some s -> s_cons s = CEnded ->
+    s_out s = spec_truncated_stream (script_pages script) k.
+Proof. exact ignored_thm. Qed.
+
 (* ---- non-vacuity: concrete scripts and schedules ---------------------------------------- *)
 Definition ex_script : list pscript :=
   [ mk_ps [0; 1; 2] [FErr 4097 DSame] (RRows [1; 2] (Some [170]));
@@ -182,6 +207,16 @@ Example C07_ex_accept :
     [(0%nat, None); (0%nat, None); (1%nat, None)] = false.
 Proof. repeat split; vm_compute; reflexivity. Qed.
 
+Example C07_ex_ignore :
+  ignore_point MSession
+    [ mk_ps [0; 1] [] (RRows [1; 2] (Some [7]));
+      mk_ps [0; 1] [FErr 4097 DSame; FErr 4352 DIgnore] (RRows [3] None) ] = Some 1%nat /\
+  snd (seq_run MSession
+    [ mk_ps [0; 1] [] (RRows [1; 2] (Some [7]));
+      mk_ps [0; 1] [FErr 4097 DSame; FErr 4352 DIgnore] (RRows [3] None) ])
+  = OStream [IRow 1; IRow 2; IEnd].
+Proof. split; vm_compute; reflexivity. Qed.
+
 Print Assumptions C07_rows.
 Print Assumptions C07_rows_safety.
 Print Assumptions C07_ends.
@@ -195,3 +230,5 @@ Print Assumptions C07_schedule_independent.
 Print Assumptions C07_accept_full_sound.
 Print Assumptions C07_accept_full_complete.
 Print Assumptions C07_accept_drop_sound.
+Print Assumptions C07_accept_drop_complete.
+Print Assumptions C07_ignored_write_error_ends_silently.
